@@ -9,7 +9,7 @@ SPEC = dict(
     component="sentcache",
     props_module="Refinery.Props.C31",
     gen_module="Refinery.Gen.Sentcache",
-    quick=dict(cases=800, len=120, shards=4),
+    quick=dict(cases=480, len=120, shards=4),
     thorough=dict(cases=32000, len=150, shards=16),
     nontrivial=nontrivial,
     rule="cases = random histories of kept records (id, rate, reason, counters), drop records, CheckSpan/CheckTrace, "
@@ -34,13 +34,13 @@ SPEC = dict(
              "of the touch sequence, most recent first; prefix of it under resizes), such a trace is answered kept with the "
              "recorded rate and interned reason, a resize keeps the newest; an id in the dropped filter or the recent-drop set is "
              "answered dropped whatever the kept list says, stays so until a rotation, rotation needs load > 99 %, the recent-drop "
-             "set covers CheckSpan for 3 s after the record. Refuted and recorded: CheckTrace does not consult the recent-drop set "
-             "(rd x; ct x answers not-found/kept until the add queue is drained). Model tied to collect/cache/*.go by replaying "
+             "set covers both lookups for 3 s after the record (full statement proved since fix 10253ac made CheckTrace consult it; the "
+             "old witness rd x; ct x is kept in corpus/C31 as a regression). Model tied to collect/cache/*.go by replaying "
              "generated histories on the real cuckooSentCache and comparing every answer and every filter/queue statistic, plus a "
              "monitor of the property on the implementation's own answers.",
         note="Trusted: Lean kernel; the differential check (sampled); the third-party LRU, cuckoo filter and wyhash as described; "
              "each cache method runs to completion (no interleaving inside Record/CheckSpan/drain/Maintain/Resize: C35 is about that).",
-        technique="Lean 4 proof (refinement + invariants by induction over histories, refuted full statement with witness) "
+        technique="Lean 4 proof (refinement + invariants by induction over histories, full statement proved after the repair) "
                   "+ model/implementation correspondence check",
     ),
     assumptions=[
